@@ -5,6 +5,7 @@ CONSTANTS
   MaxCrashes = 1
   ClientOps = {"cancel"}
   RestartIfIdKnown = FALSE
+  IdStoredLate = FALSE
   StdoutFromZero = FALSE
   ReleaseSkipsRemote = FALSE
 PROPERTIES
